@@ -3,10 +3,11 @@
 // Oracle (metamorphic, twin engines): every statement of the catalogue is executed once on a
 // writable twin and once on an identically prepared engine that is in one of four read-only modes
 // (Engine.ReadOnly, Engine.IsServerLocked, START TRANSACTION READ ONLY, memory.ReadOnlyDatabase).
-//   * the read-only engine's database fingerprint (all rows + catalog listing) must never change;
-//   * if the twin's fingerprint changed, the statement is a write by observation and the read-only
+//   - the read-only engine's database fingerprint (all rows + catalog listing) must never change;
+//   - if the twin's fingerprint changed, the statement is a write by observation and the read-only
 //     engine must have rejected it with an error (a panic is not a rejection);
-//   * statements that are read-only by kind must succeed with the same result as on the twin.
+//   - statements that are read-only by kind must succeed with the same result as on the twin.
+//
 // Not asserted: CALL (rejected wholesale by the engine modes), SET GLOBAL, account statements
 // (recorded only), writes-by-kind that are no-ops on this data.
 package main
